@@ -108,8 +108,14 @@ func TestMut7SelectDeclinesSingleCandidateRemote(t *testing.T) {
 		t.Errorf("B lists %v as active although the activation was declined", p)
 	}
 
-	// sanity: a select function that accepts the candidate activates on B.
-	pid = a.c.Activate(kind, NewActivationConfig().WithID("2").WithSelectMemberFunc(m7aOnlyRegion("eu")))
+	// sanity: a select function that accepts the candidate activates on B (a few tries, the
+	// remote request has a 1s budget and the machine may be loaded).
+	for _, id := range []string{"2", "3", "4"} {
+		pid = a.c.Activate(kind, NewActivationConfig().WithID(id).WithSelectMemberFunc(m7aOnlyRegion("eu")))
+		if pid != nil {
+			break
+		}
+	}
 	if pid == nil || pid.Address != b.c.engine.Address() {
 		t.Errorf("expected activation on B, got %v", pid)
 	}
